@@ -456,7 +456,9 @@ func runOnce(f func([]Val) Val, a []Val, withDecoys bool) (r Val, desc string) {
 	if d := sparesDamaged(); d != "" {
 		return r, d
 	}
-	if !singleRun && withDecoys {
+	// the decoy phase only when the op kept something: an op that keeps nothing cannot be hurt by it, and the decoys would
+	// wipe the cross-request history (a memo left behind by the previous request; seeded C15-v2 was masked by them)
+	if !singleRun && withDecoys && len(keptB)+len(keptI)+len(keptP)+len(keptL)+len(keptV) > 0 {
 		refreshKept()
 		decoys()
 		if d := movedDuringDecoys(); d != "" {
